@@ -7,6 +7,7 @@
   faithful model: `C13_Reclaim_Statement`, two witnesses (F-C13-1 orphaned child, F-C13-2 lost RST).
 -/
 import TvNetTcp.Proofs.SysIndex
+import TvNetTcp.Proofs.SysAccept
 
 namespace TV.C13
 open TV.NetTcp
@@ -151,6 +152,36 @@ theorem accept_fifo (k : Kernel) (fd child : Nat) (rest : List Nat) (s : Socket)
   · simp [Kernel.pollAccept, hs, hl, hr, hc]
     rfl
 
+/-- **Accept-once, all histories.** After any op sequence on any number of hosts, with any
+    per-packet deliver / duplicate / drop schedule, no socket has been handed out twice by `accept`
+    on any host (`acceptLog` = the fds `poll_accept` returned, in order). Reason (invariant
+    `AccInv`): a fd is queued on a listener only at its SynReceived → Established transition, no TCB
+    ever returns to SynReceived, fds are never reused, and — counted with multiplicity — accepted
+    fds plus fds still waiting in ready queues never exceed the queued ones. -/
+theorem accept_once (cfg : Cfg) (hosts : Nat) (ops : List Op) :
+    ∀ k ∈ ((Sys.init cfg hosts).exec ops).kernels, k.acceptLog.Nodup ∧ k.pushLog.Nodup ∧
+      ∀ x, k.acceptLog.count x ≤ k.pushLog.count x := by
+  intro k hk
+  have h := run_acc (Sys.init cfg hosts) ops (SAcc.init cfg hosts) k hk
+  refine ⟨h.acceptLog_nodup, h.pushNodup, ?_⟩
+  intro x
+  have := h.count x
+  omega
+
+/-- Also for arbitrary (forged) packets and fd arguments at the kernel boundary. -/
+theorem accept_once_kernel_ops (cfg : Cfg) (k : Kernel) (h : AccInv k) (p : Packet) (fd : Nat) :
+    (Kernel.deliver cfg k p).acceptLog.Nodup ∧ (k.pollAccept fd).1.acceptLog.Nodup ∧ (k.close fd).acceptLog.Nodup :=
+  ⟨(h.deliver cfg p).acceptLog_nodup, (h.pollAccept fd).acceptLog_nodup, (h.close fd).acceptLog_nodup⟩
+
+set_option maxRecDepth 100000 in
+/-- Non-vacuity: two clients, both handshakes complete, two accepts hand out two different fds. -/
+example :
+    let ops : List Op := [.listen 1 0 ⟨.host 1 false, 9000⟩, .connect 0 0 0 ⟨.host 1 false, 9000⟩,
+      .connect 0 1 1 ⟨.host 1 false, 9000⟩, .egress, .deliver 0, .deliver 1, .egress, .deliver 2, .deliver 3,
+      .egress, .deliver 5, .deliver 4, .accept 0 10, .accept 0 11, .accept 0 12]
+    (((Sys.init {} 2).exec ops).kernel 1).acceptLog = [3, 2] := by
+  decide
+
 /-- Refusal: a SYN for a port nobody listens on is answered with an RST (and creates nothing);
     an RST reaching a connecting client aborts it with `reset`, and `connect` then reports
     `ConnectionRefused`. -/
@@ -278,7 +309,7 @@ theorem fixed_F_C13_3 :
     `LastAck` / `Closing` to `Closed`, and a FIN received in `FinWait2` moves to `Closed`; (b) an
     abort (RST, retransmit exhaustion) always yields `Closed`; (c) after `reap_closed` no dropped
     socket in `Closed` / reset state remains (`reap_closed_complete`), and `remove` clears all three
-    indexes (`remove_clears`). Missing for the full statement: that every dropped socket *reaches*
+    indexes (`remove_clears`); accept-once is `accept_once`. Missing for the full statement: that every dropped socket *reaches*
     one of these states within the bound — false on the faithful model (F-C13-1: never-accepted
     children are not `fd_closed`; F-C13-2 / F-C13-3: a lingering socket with nothing in flight waits
     forever, for a lost RST or behind a window that a closed peer will never reopen). -/
